@@ -28,8 +28,8 @@ RULE = ('winnow: every list of <=5 processes with exit codes in '
         '{None,0,1,-9} (list and dict form; dict keys in shuffled order). '
         'faults: generated reference problems (5-8 leaves, 2-3 levels, '
         '10-16 genes) x 8 stage fixtures x worker index x {before,mid,after} '
-        'x {raise,os._exit(3),SIGKILL} with n_processors in 2..4; quick = '
-        'last worker x 9 + first worker x 3, thorough = every worker x 9 on 5 problems. '
+        'x {raise,os._exit(3),SIGKILL,SIGTERM} with n_processors in 2..4; quick = '
+        'last worker x 9 + first worker x 3, thorough = every worker x 12 on 4 problems. '
         'non-trivial = winnow list with a finished process / a fault that '
         'actually fired in a stage with >=2 workers; distinct by '
         '(stage, n_workers, worker, point, mode, problem)')
@@ -58,6 +58,7 @@ STAGE_OF_FIXTURE = {'mapping': 'mapping', 'mapping.csvOnly': 'mapping',
                     'pMarkers.transpose': 'pMarkers',
                     'selection': 'selection',
                     'selection.behemoth': 'selection',
+                    'selection.multiRef': 'selection',
                     'transpose': 'transpose'}
 SUCCESS_LINE = 'RAN SUCCESSFULLY'
 
@@ -482,7 +483,6 @@ def run_faults(ctx):
         plans = [(rng.randrange(2 ** 31), 5, 2),
                  (rng.randrange(2 ** 31), 7, 3),
                  (rng.randrange(2 ** 31), 8, 4),
-                 (rng.randrange(2 ** 31), 8, 2),
                  # 4 leaves = 6 pairs: the dict stages have a single worker
                  (rng.randrange(2 ** 31), 4, 3)]
     for prob_seed, n_leaves, n_proc in plans:
@@ -505,7 +505,8 @@ def run_faults(ctx):
                 n_workers = rec.started
                 ctx.count('workers:%s:%d' % (fixture, n_workers))
                 ctx.case(None)
-                if ctx.tier == 'quick' and fixture != 'selection.behemoth':
+                if ctx.tier == 'quick' and fixture not in (
+                        'selection.behemoth', 'selection.multiRef'):
                     workers = sorted({0, n_workers - 1})
                 else:
                     workers = list(range(n_workers))
@@ -523,7 +524,8 @@ def run_faults(ctx):
                                 if ctx.tier == 'quick' and (
                                         w != workers[-1] or point == 'mid'):
                                     continue
-                            elif fixture == 'selection.behemoth':
+                            elif fixture in ('selection.behemoth',
+                                             'selection.multiRef'):
                                 # every worker (each behemoth in turn):
                                 # the scheduler treats them differently
                                 if ctx.tier == 'quick' and point == 'mid':
